@@ -178,6 +178,8 @@ def run_one(h, target_dir, tier, log_dir):
     timeout = int(h.opts.get("timeout", 900 if tier == "quick" else 3600))
     if tier == "thorough" and "ttimeout" in h.opts:
         timeout = int(h.opts["ttimeout"])
+    if os.environ.get("VERIF_TIMEOUT"):
+        timeout = int(os.environ["VERIF_TIMEOUT"])
     mem = float(h.opts.get("mem", 16))
     t0 = time.time()
     log_path = os.path.join(log_dir, h.name + ".log")
